@@ -70,7 +70,7 @@ Proof.
   rewrite app_nil_r in He.
   assert (Hvars : dvars e = vars).
   { rewrite Hdv. unfold vars. rewrite (find_parsed_vars_chain (a0, rest)). reflexivity. }
-  destruct (eval_deep_is_dden C R R_refl R_sym R_trans R_bin R_un (flagged tb) flagged_assoc vals (okvars vars vals) (okvars_len vars vals) e Hwe)
+  destruct (eval_deep_is_dden C R R_refl R_sym R_trans R_bin R_un (flagged tb) flagged_assoc (vlook C vals) (okvar vals) (okvars vars vals) vals (okvars_len vars vals) (fun i x H => conj H eq_refl) e Hwe)
     as (v & Ev & Rv).
   exists e, v. split; [exact He|]. split; [exact Hvars|]. split.
   - unfold eval_deep. rewrite Hvars, Hlen, Nat.eqb_refl. exact Ev.
